@@ -134,6 +134,11 @@ type mirror struct {
 
 func fail(class, name, why string) { panic(cerr{class: class, name: name, why: why}) }
 
+// PredictClass: the class of Check()'s verdict as coded: OK, E703, E1302, E1303, E1304, E104, OTHER.
+func PredictClass(g *tg.Graph, name string, root *tg.Node, selfAdd bool) string {
+	return Predict(g, name, root, selfAdd).class
+}
+
 // Predict returns the class of Check()'s verdict: "OK" or the first error.
 func Predict(g *tg.Graph, name string, root *tg.Node, selfAdd bool) (res cerr) {
 	defer func() {
